@@ -1,5 +1,6 @@
 import Cadence.Proofs.FormatText
 import Cadence.Proofs.ClientProps
+import Cadence.Proofs.FormatCheck
 /-!
 # C01 — every emitted line is a well-formed, faithful DogStatsD metric line
 
@@ -64,6 +65,18 @@ theorem standalone_same_text (c : Ctor) (cfg : ClientCfg) (e : Entry) (key : Str
     (hk : e.kind = c.kind) (ht : cfg.tags = []) (hc : cfg.cid = none) :
     (buildFmt cfg e key v []).format = standalone c (normPrefix cfg.pfx) key v :=
   standalone_eq_client c cfg e key v hk ht hc
+
+/-- The executable predicate the driver evaluates on the *implementation's* observation of every
+call for C01 / C02 / C03 / C04 (`ckCall`: parse the emitted text back, compare field by field with
+what was supplied, check results and handler calls) accepts every observation of the model, provided
+the float tokens are what a correct `Display` prints (delimiter-free, round-tripping): an
+implementation that behaves like the model is never flagged by it. -/
+theorem predicate_accepts_every_model_call (cfg : ClientCfg) (e : Entry) (form : Form) (key : Str) (a : Arg)
+    (bops : List BOp) (sink : SinkOut) (tok : Nat) (o : CallObs)
+    (h : call cfg e form key a bops sink tok = some o)
+    (ha : a.floatsWF) (hb : ∀ b ∈ bops, BOp.floatsWF b) :
+    ckCall cfg e form key a bops sink tok o = .ok () :=
+  ckCall_accepts_model cfg e form key a bops sink tok o h ha hb
 
 -- non-vacuity: a histogram of a packed list with rate, tags, container and timestamp round-trips
 example :
